@@ -3,7 +3,8 @@ import time
 
 import z3
 
-from .. import driver, engine, symstr, dech, hist
+from .. import driver, engine, symstr, dech, hist, oderiv
+from ..oread import read_smiles
 from ..ctx import Ctx
 from ..engine import fresh_int, SymBool, SymInt
 from ..symstr import model_value
@@ -84,6 +85,7 @@ def run(rep, tier, seed, budget):
                 cur_before = st.cur
                 hist.apply_op(api, st, op)
                 hist.observe(api, st)
+                hist.probe_unlisted(api, st, i, oderiv.derive, read_smiles, oderiv.compare_with_output)
                 if st.cur is cur_before:
                     after = dech.run_decoder(ctx, PROBE)
                     if (before[0], str(before[1])) != (after[0], str(after[1])):
